@@ -24,6 +24,8 @@ func main() {
 	progress := flag.String("progress", "", "progress file")
 	descs := flag.String("descs", "", "file with one JSON case descriptor per line: run these instead of generating")
 	conc := flag.Int("conc", 1, "number of goroutines running cases concurrently (C16)")
+	flag.StringVar(&cliBinary, "cli", "", "path of the gophersat executable (C19)")
+	flag.StringVar(&cliDir, "clidir", "", "scratch directory for the files given to the executable (C19)")
 	flag.Parse()
 	f := os.Stdout
 	if *out != "" {
@@ -213,6 +215,16 @@ func main() {
 			} else {
 				runC17(e, idx, c)
 			}
+		case "C19":
+			var c *CliCase
+			if desc != "" {
+				c = &CliCase{}
+				mustJSON(desc, c)
+				c.norm()
+			} else {
+				c = genC19(r, gidx, *tier)
+			}
+			runC19(e, idx, c)
 		default:
 			fmt.Fprintln(os.Stderr, "unknown property", *prop)
 			os.Exit(2)
